@@ -25,8 +25,8 @@ import (
 	"time"
 
 	"github.com/tmpim/casket"
-	"github.com/tmpim/casket/caskethttp/httpserver"
 	_ "github.com/tmpim/casket/caskethttp"
+	"github.com/tmpim/casket/caskethttp/httpserver"
 )
 
 // Step is one action of the script.
@@ -231,6 +231,7 @@ func run(scriptPath string) int {
 		os.WriteFile(filepath.Join(sc.Dir, "result.json"), out, 0o644)
 	}
 	var inst *casket.Instance
+	var firstInst *casket.Instance // the first instance this process started
 	occupied := map[string]net.Listener{}
 	occupiedUDP := map[string]net.PacketConn{}
 	for _, st := range sc.Steps {
@@ -251,8 +252,21 @@ func run(scriptPath string) int {
 				i, err := casket.Start(in)
 				if err == nil {
 					inst = i
+					if firstInst == nil {
+						firstInst = i
+					}
 				}
 				done <- err
+			case "stop-first-later":
+				// N milliseconds from now, from another goroutine, stop the first instance this process started
+				fi, delay := firstInst, time.Duration(st.N)*time.Millisecond
+				go func() {
+					time.Sleep(delay)
+					if fi != nil {
+						fi.Stop()
+					}
+				}()
+				done <- nil
 			case "restart":
 				if inst == nil {
 					done <- fmt.Errorf("no instance")
